@@ -15,7 +15,15 @@ correspond : (model) c04driver enum: for every (kind, field) of the specificatio
              written, collections are forced (`#%verif-gc-every` 1,2,7 = a full collection at every n-th
              allocation, or explicit `(#%gc-collect)`), enough garbage is allocated to hand every freed slot out
              again, everything is read back.  Oracle: the tags written (the collection-free store); plus the
-             stale-handle detector of the hook must stay silent.
+             stale-handle detector of the hook must stay silent.  A forced collection is the REAL collection routine
+             with its `force` flag turned on by the hook, so the pending value / root arguments under test are the
+             ones written at the real mark_and_sweep_new call sites.
+             (implicit) no forcing: programs fill one of the two free lists with live filler up to a few slots below
+             the 95 % threshold (244 of 256; 24 564 of 25 856 after the first growth) and then make allocations whose
+             operand is a fresh unshared mutable object (NEWBOX of a fresh vector / box / struct, set!-captured
+             variable, mutable struct field, make-vector / mutable-vector of fresh boxes / vectors, accumulators of
+             map / foldl / named let / transduce) of rotating kinds until the collector's own full collection has
+             happened; rotation x margin x JIT on/off sweep which allocation is the triggering one.
 """
 import os
 import random
@@ -27,9 +35,9 @@ PID = "C04"
 META = {
     "ready": True,
     "category": "proof",
-    "technique": "Lean 4 theorems about a model of the free list / marker / collection policy (mark soundness on cyclic heaps, collections anywhere in any operation list are invisible: refinement to a never-collected store) + edge/root tables regenerated from the Rust source and checked by `decide` + differential runs of generated allocation-heavy Steel programs on the real engine with a forced full collection at every n-th allocation",
-    "level_text": "Proved for all heaps, root sets, operation lists and collection schedules (SteelVerif/C04/Props.lean): the mark phase marks every slot reachable from the roots (cycles included, worklist termination proved), a full or policy-triggered collection keeps every allocated reachable cell unchanged, allocate hands out a slot that was free, the minor collection never frees a slot to which a handle exists, and gc_transparent: for every list of alloc/write/read/add-root/drop-root operations with minor and full collections inserted at ANY positions every read equals the read from an abstract store that is never collected and never reuses a name. The marker's parameters are tables regenerated from closed.rs/cycles.rs/rvals.rs/vm.rs on every run; `decide` proves that BOTH copies of the traversal follow every value-holding field of every SteelVal variant and that Heap::mark / enumerate_stacks / live_functions / every allocation call site push every root class — EXCEPT the fields of ContinuationMark::Open and ClosedContinuation.current_frame's handler, which the traversal does not follow: for those the theorem is `mark_sound_full_partial` with the explicit hypothesis that what they hold is also reachable from the operand stack / frame list (true by the VM's open-mark protocol, not modelled); the full statement is proved false of the tables (edges_complete_*_fails). That the tables are all the edges (hand-written edgesSpecTable), the parallel work distribution, and the VM's choice of what is on the stack rest on the differential runs.",
-    "level_note": "Trusted: Lean kernel, the translator (bracket matching / regex over stylised Rust), the hand-written specification table of value-holding fields, harness/generator/comparison. One free list in the model stands for the two instances (values, vectors) of the same generic Rust code. Host values held without `as_rooted`, custom types' own visit_children and opaque host data (BoxedFunction, FutureV, Reference) are outside the specification table.",
+    "technique": "Lean 4 theorems about a model of the free list / marker / collection policy (mark soundness on cyclic heaps, collections anywhere in any operation list are invisible: refinement to a never-collected store; a model of the VM's stack discipline around call/cc for the untraversed open continuation mark) + edge/root/call-site tables regenerated from the Rust source and checked by `decide` (both marker traversals, root pushes, the pending value of every mark_and_sweep_new call, the heap-lock / stop-the-world bracket) + differential runs of generated allocation-heavy Steel programs on the real engine: a full collection forced at every n-th allocation THROUGH the real value_collection / vector_collection code, and unforced programs that drive the collector's own 95 % thresholds so that each allocation kind with a fresh unshared operand is the triggering one",
+    "level_text": "Proved for all heaps, root sets, operation lists and collection schedules (SteelVerif/C04/Props.lean): the mark phase marks every slot reachable from the roots (cycles included, worklist termination proved), a full or policy-triggered collection keeps every allocated reachable cell unchanged, allocate hands out a slot that was free, the minor collection never frees a slot to which a handle exists, and gc_transparent: for every list of alloc/write/read/add-root/drop-root operations with minor and full collections inserted at ANY positions (allocations run the collection policy with the value being allocated as an extra root, as Heap::allocate does) every read equals the read from an abstract store that is never collected and never reuses a name. A collection is one atomic step of that list because the code makes it one: marking_excludes_allocation (decide, from the source) - every Heap::allocate*/collection call is made on the heap mutex taken inside a safepoint and the mark runs between stop_threads and resume_threads. The marker's parameters are tables regenerated from closed.rs/cycles.rs/rvals.rs/vm.rs on every run; `decide` proves that BOTH copies of the traversal follow every value-holding field of every SteelVal variant, that Heap::mark / enumerate_stacks / live_functions / every allocation call site push every root class, and pending_value_is_root: every call of mark_and_sweep_new outside the hook passes the pending parameter of its enclosing function (a None / empty iterator where the function has a pending value breaks it) and the five root sets in order, and the pending value / vector of allocate, allocate_vector, allocate_vector_iter reaches the marker on every non-hook path. The fields of ContinuationMark::Open and ClosedContinuation.current_frame's handler are not traversed (edges_complete_*_fails): open_mark_covered proves, for every list of VM operations of a hand-written model of the stack discipline around call/cc (running frame touches the operand stack only from its own sp upwards; call, call/cc, return/unwind closing the popped frame's marks, invocation of a still-open continuation), that every value held by an open mark is on the operand stack, and mark_sound_full_covered derives mark soundness for the FULL specification from the structural condition that whatever sits under an untraversed field is itself a root (reach_covered); mark_sound_full_partial keeps the bare hypothesis visible. That the tables are all the edges (hand-written edgesSpecTable), that the VM follows the modelled stack discipline, the parallel work distribution, and the VM's choice of what is on the stack rest on the differential runs. Open finding K04e (values accumulated by a transducer's reducer are not roots) is outside the root specification: it is a root class the code lacks and the runs exhibit.",
+    "level_note": "Trusted: Lean kernel, the translator (bracket matching / regex over stylised Rust), the hand-written specification table of value-holding fields, the hand-written VM model of LemmasOpenMark.lean (tied to vm.rs by the differential cont_open / cont_open_tail / cont_closed scenarios only), harness/generator/comparison. One free list in the model stands for the two instances (values, vectors) of the same generic Rust code. Host values held without `as_rooted`, custom types' own visit_children and opaque host data (BoxedFunction, FutureV, Reference) are outside the specification table.",
 }
 
 # ------------------------------------------------------------------------------------------------------
@@ -46,6 +54,10 @@ PREAMBLE = """(define (total-slots) (let ((s (#%verif-heap-stats))) (+ (list-ref
 (define (mk-vec v) (mutable-vector v 'pad))
 (define (rd-vec o) (mut-vector-ref o 0))
 (define (wr-vec o v) (vector-set! o 0 v) 0)
+(define (mk-mkv v) (make-vector 2 v))
+(define (rd-mkv o) (mut-vector-ref o 1))
+(define (wr-mkv o v) (vector-set! o 1 v) 0)
+(define (wr-mkv-any o v) (vector-set! o 1 v) 0)
 (define (mk-fld v) (mcell v))
 (define (rd-fld o) (mcell-v o))
 (define (wr-fld o v) (set-mcell-v! o v) 0)
@@ -59,7 +71,7 @@ PREAMBLE = """(define (total-slots) (let ((s (#%verif-heap-stats))) (+ (list-ref
 (define (wr-var-any o v) (o 'set v))
 """
 
-KINDS = ["box", "vec", "fld", "var"]
+KINDS = ["box", "vec", "fld", "var", "mkv"]     # mkv: make-vector = Heap::allocate_vector_iter (its own copy of the policy)
 
 # wrapper: name -> (wrap expression with {x}, unwrap expression with {w}, hashable-only?)
 WRAPS = {
@@ -323,10 +335,10 @@ def recycler_program(mode_every):
 # running
 # ------------------------------------------------------------------------------------------------------
 
-def run_batch(programs, timeout):
+def run_batch(programs, timeout, env=None):
     """programs: list of texts.  Returns list of (piece result lines, stats list or None) per program, rc."""
     inp = "\n;;;===\n".join(programs) + "\n"
-    rc, out, err = C.run_bin([C.bin_path("c04"), "batch"], inp, timeout=timeout)
+    rc, out, err = C.run_bin([C.bin_path("c04"), "batch"], inp, timeout=timeout, env=env)
     res = []
     cur, stats = [], None
     for line in out.splitlines():
@@ -351,12 +363,16 @@ def header(mode, scens):
 
 def check_programs(ctx, items, stats, label, timeout=300):
     """items: list of (text, scens, mode).  Runs them in parallel batches and judges every piece."""
-    nb = max(1, min(C.NCPU, (len(items) + 3) // 4))
+    # at most MAX_PER_PROCESS programs per harness process: the JIT's executable mappings of an Engine are not
+    # unmapped when the Engine is dropped (~400 mappings per program here), so a process that runs more than
+    # ~160 programs reaches vm.max_map_count and aborts on a failing allocation
+    MAX_PER_PROCESS = 60
+    nb = max(1, min(C.NCPU, (len(items) + 3) // 4), (len(items) + MAX_PER_PROCESS - 1) // MAX_PER_PROCESS)
     chunks = [items[i::nb] for i in range(nb)]
 
     def work(chunk):
         return run_batch([t for t, _, _ in chunk], timeout) if chunk else ([], 0, ([], ""))
-    results = C.pool_map(work, chunks, workers=nb)
+    results = C.pool_map(work, chunks, workers=min(nb, C.NCPU))
     for chunk, (res, rc, tail) in zip(chunks, results):
         prev_stale = 0
         prev_fc = 0
@@ -399,7 +415,215 @@ def check_programs(ctx, items, stats, label, timeout=300):
 
 
 # scenario shapes that are the class of an open finding (if KNOWN_FINDINGS.txt lists it)
-KNOWN_SHAPES = {"channel": "K04c", "thread_result": "K04d"}
+# K04e (class transduce_accumulator_only_root): the storage is reachable only from what a transducer pipeline
+# has accumulated so far (Rust-side accumulator of the reducer) while a later callback collects.
+KNOWN_SHAPES = {"channel": "K04c", "thread_result": "K04d", "transduce_acc": "K04e"}
+
+
+# ------------------------------------------------------------------------------------------------------
+# implicit collections: no forcing, the collector's own thresholds
+# ------------------------------------------------------------------------------------------------------
+# The policy starts a full collection when a free list is more than 95 % full after the minor collection
+# (256 slots at first: 244 live; 25 856 after the first growth: 24 564 live).  The programs below fill one
+# of the two lists (values / vectors) with live filler up to a few slots below the threshold and then make
+# allocations whose operand is a FRESH, UNSHARED mutable object (reachable from nothing but the allocation
+# request once the instruction has taken it off the operand stack), of rotating kinds, until the counter of
+# full collections has moved and a few more; everything is read back at once (stale-handle detector) and
+# again after enough garbage to hand out every free slot.  The rotation sweeps which kind - and, for kinds
+# that allocate twice, which of the two allocations - is the one that triggers the collection.
+
+# name, maker with {t}, reader with {h}
+IMPL_VALUE_KINDS = [
+    ("newbox-of-mvec", "(box (mutable-vector {t} 7))", "(mut-vector-ref (unbox {h}) 0)"),
+    ("newbox-of-box", "(box (box {t}))", "(unbox (unbox {h}))"),
+    ("field-of-mvec", "(mcell (mutable-vector {t} 7))", "(mut-vector-ref (mcell-v {h}) 0)"),
+    ("setvar-of-mvec", "(let ((x (mutable-vector {t} 7))) (lambda (m a) (if (eq? m 'get) x (begin (set! x a) 0))))",
+     "(mut-vector-ref ({h} 'get 0) 0)"),
+    ("newbox-of-field", "(box (mcell {t}))", "(mcell-v (unbox {h}))"),
+    ("newbox-of-list-of-box", "(box (list 1 (box {t})))", "(unbox (cadr (unbox {h})))"),
+    ("setvar-of-box", "(let ((x (box {t}))) (lambda (m a) (if (eq? m 'get) x (begin (set! x a) 0))))", "(unbox ({h} 'get 0))"),
+    ("field-of-box", "(mcell (box {t}))", "(unbox (mcell-v {h}))"),
+    ("primbox-of-mvec", "((car (list box 1)) (mutable-vector {t} 7))", "(mut-vector-ref (unbox {h}) 0)"),
+    ("newbox-of-closure-over-setvar", "(box (let ((x {t})) (lambda (m a) (if (eq? m 'get) x (begin (set! x a) 0)))))", "((unbox {h}) 'get 0)"),
+    ("newbox-of-hash-of-box", "(box (hash 'k (box {t})))", "(unbox (hash-ref (unbox {h}) 'k))"),
+]
+IMPL_VECTOR_KINDS = [
+    ("mvec-of-mvec", "(mutable-vector (mutable-vector {t} 7) 1)", "(mut-vector-ref (mut-vector-ref {h} 0) 0)"),
+    ("makevec-of-mvec", "(make-vector 2 (mutable-vector {t} 7))", "(mut-vector-ref (mut-vector-ref {h} 1) 0)"),
+    ("mvec-of-box", "(mutable-vector (box {t}) 1)", "(unbox (mut-vector-ref {h} 0))"),
+    ("makevec-of-box", "(make-vector 2 (box {t}))", "(unbox (mut-vector-ref {h} 0))"),
+    ("newbox-of-mvec-of-mvec", "(box (mutable-vector (mutable-vector {t} 7)))", "(mut-vector-ref (mut-vector-ref (unbox {h}) 0) 0)"),
+    ("field-of-makevec-of-mvec", "(mcell (make-vector 1 (mutable-vector {t} 7)))", "(mut-vector-ref (mut-vector-ref (mcell-v {h}) 0) 0)"),
+    ("mvec-of-list-of-mvec", "(mutable-vector (list (mutable-vector {t} 7)))", "(mut-vector-ref (car (mut-vector-ref {h} 0)) 0)"),
+    ("mvec-of-field", "(mutable-vector (mcell {t}))", "(mcell-v (mut-vector-ref {h} 0))"),
+]
+# accumulating constructs: N results, each a fresh mutable object, accumulated while later elements allocate.
+# name, expression with {n} {mk} (mk: expression in i), known-finding class shape
+IMPL_ACCUMULATORS = [
+    ("map", "(map (lambda (i) {mk}) (range 0 {n}))", None),
+    ("foldl", "(reverse (foldl (lambda (i acc) (cons {mk} acc)) '() (range 0 {n})))", None),
+    ("named-let", "(let loop ((i 0) (acc '())) (if (= i {n}) (reverse acc) (loop (+ i 1) (cons {mk} acc))))", None),
+    ("transduce-into-list", "(transduce (range 0 {n}) (mapping (lambda (i) {mk})) (into-list))", "transduce_acc"),
+    ("transduce-into-vector", "(vector->list (transduce (range 0 {n}) (mapping (lambda (i) {mk})) (into-vector)))", "transduce_acc"),
+    ("transduce-into-reducer", "(reverse (transduce (range 0 {n}) (mapping (lambda (i) {mk})) (into-reducer (lambda (acc x) (cons x acc)) '())))", "transduce_acc"),
+]
+
+IMPL_PRE = """(struct mcell (v) #:mutable)
+(define (st i) (list-ref (#%verif-heap-stats) i))
+(define keep '())
+(define items '())
+(define base {base})
+(define (used) (- (st base) (st (+ base 2))))
+(define (thr) (+ 1 (exact (floor (* 0.95 (st base))))))
+(define (fill-n n) (if (> n 0) (begin (set! keep (cons {filler} keep)) (fill-n (- n 1))) 0))
+(define (fill-to n) (if (< (used) n) (begin (fill-n (- n (used))) (fill-to n)) 0))
+(define (garbage n) (if (= n 0) 0 (begin (box 'overwritten) (mutable-vector 'overwritten 'overwritten) (garbage (- n 1)))))
+(define (mk k t) (cond {mks} (else 0)))
+(define (rd k h) (cond {rds} (else 0)))
+(define (seq i r after fc0)
+  (if (or (> i {limit}) (> after {extra})) i
+      (let ((k (modulo (+ i r) {nk})))
+        (set! items (cons (list i k (mk k (+ 5000 i)) (st 9)) items))
+        (seq (+ i 1) r (if (> (st 9) fc0) (+ after 1) 0) fc0))))
+(define (readback) (map (lambda (it) (list (car it) (cadr it) (rd (cadr it) (caddr it)) (cadddr it))) (reverse items)))
+(list (st base) (used) (thr))"""
+
+
+class Impl:
+    """One implicit-collection program."""
+    def __init__(self, which, rot, second, margin, acc=None, acc_kind=0):
+        self.which, self.rot, self.second, self.margin, self.acc, self.acc_kind = which, rot, second, margin, acc, acc_kind
+        self.kinds = IMPL_VALUE_KINDS if which == "values" else IMPL_VECTOR_KINDS
+        nk = len(self.kinds)
+        pre = IMPL_PRE.format(
+            base=0 if which == "values" else 4, filler="(box 0)" if which == "values" else "(mutable-vector 0)",
+            mks=" ".join("((= k %d) %s)" % (i, k[1].format(t="t")) for i, k in enumerate(self.kinds)),
+            rds=" ".join("((= k %d) %s)" % (i, k[2].format(h="h")) for i, k in enumerate(self.kinds)),
+            limit=400, extra=nk + 2, nk=nk)
+        pieces = [pre]
+        if second:
+            # cross the first threshold with filler only (full collection, growth), then aim at the second one
+            pieces.append("(fill-to (+ (thr) 30))\n(list (st base) (used) (thr) (st 9))")
+        if acc is None:
+            pieces.append("(fill-to (- (thr) %d))\n(define fc0 (st 9))\n(seq 0 %d 0 fc0)" % (margin, rot))
+        else:
+            name, expr, _ = IMPL_ACCUMULATORS[acc]
+            mk = self.kinds[acc_kind][1].format(t="(+ 5000 i)")
+            pieces.append("(fill-to (- (thr) %d))\n(define fc0 (st 9))\n(define res %s)\n"
+                          "(set! items (map (lambda (h i) (list i %d h (st 9))) res (range 0 (length res))))\n(length res)" % (
+                              margin, expr.format(n=40 + margin, mk=mk), acc_kind))
+        pieces.append("(define s0 (st 8))\n(define r1 (readback))\n(list fc0 (- (st 9) fc0) (- (st 8) s0) r1)")
+        pieces.append("(garbage (+ 40 (st 0) (st 4)))\n(define s1 (st 8))\n(define r2 (readback))\n(list (- (st 8) s1) (map caddr r2))")
+        self.text = "\n;;;---\n".join(pieces)
+
+    def label(self):
+        return "implicit-%s-%s-r%d-m%d%s" % (
+            self.which, "2nd" if self.second else "1st", self.rot, self.margin,
+            "" if self.acc is None else "-%s-%s" % (IMPL_ACCUMULATORS[self.acc][0], self.kinds[self.acc_kind][0]))
+
+
+def parse_sexp(txt):
+    """Minimal reader for the printed result lists (integers, symbols, nested lists)."""
+    toks = re.findall(r"\(|\)|[^\s()]+", txt)
+    pos = [0]
+
+    def rd():
+        t = toks[pos[0]]; pos[0] += 1
+        if t == "(":
+            out = []
+            while toks[pos[0]] != ")":
+                out.append(rd())
+            pos[0] += 1
+            return out
+        try:
+            return int(t)
+        except ValueError:
+            return t
+    return rd()
+
+
+def implicit_family(ctx, stats, hookless_only=False):
+    """Runs the implicit-collection programs (JIT on and off) and judges them.  Oracle: the tags written."""
+    progs = []
+    nkv, nkx = len(IMPL_VALUE_KINDS), len(IMPL_VECTOR_KINDS)
+    quick = ctx.quick()
+    for rot in range(nkv):
+        for margin in ((6, 7) if quick else (5, 6, 7, 8)):
+            progs.append(Impl("values", rot, False, margin))
+    for rot in range(nkx):
+        for margin in ((6, 7) if quick else (5, 6, 7, 8)):
+            progs.append(Impl("vectors", rot, False, margin))
+    for rot in (range(0, nkv, 3) if quick else range(nkv)):
+        progs.append(Impl("values", rot, True, 6 + rot % 2))
+    for rot in (range(0, nkx, 3) if quick else range(nkx)):
+        progs.append(Impl("vectors", rot, True, 6 + rot % 2))
+    for a in range(len(IMPL_ACCUMULATORS)):
+        for which, ks in (("values", (0,)), ("vectors", (0,))) if quick else (("values", (0, 1, 3)), ("vectors", (0, 2, 3))):
+            for k in ks:
+                progs.append(Impl(which, 0, False, 6, acc=a, acc_kind=k))
+    items = [(p, jit) for p in progs for jit in ("true", "false")]
+    nb = max(1, min(C.NCPU, (len(items) + 5) // 6))
+    chunks = [items[i::nb] for i in range(nb)]
+
+    def work(chunk):
+        out = []
+        for jit in ("true", "false"):
+            sub = [p for p, j in chunk if j == jit]
+            if sub:
+                res, rc, tail = run_batch([p.text for p in sub], 600, env={"STEEL_JIT": jit})
+                out.append((jit, sub, res, rc, tail))
+        return out
+    known = stats.get("known", {})
+    trig = stats.setdefault("implicit_trigger_kinds", {})
+    for group in C.pool_map(work, chunks, workers=nb):
+        for jit, sub, res, rc, tail in group:
+            for j, p in enumerate(sub):
+                stats["implicit_programs"] = stats.get("implicit_programs", 0) + 1
+                name = "C04-%s-jit%s.scm" % (p.label(), jit)
+                head = ";; implicit collections (no forcing), STEEL_JIT=%s, %s\n;; every item i must read back 5000+i, no stale-handle access\n" % (jit, p.label())
+                if j >= len(res):
+                    ctx.violation(name, head + ";; the harness died (rc=%d) %s\n%s\n" % (rc, tail[1][-300:].replace("\n", " "), p.text))
+                    break
+                lines = res[j][0]
+                problem = None
+                try:
+                    if len(lines) < 2 or not lines[-2].startswith("ok "):
+                        raise ValueError("the program did not reach the first read-back")
+                    fc0, dfc, stale1, r1 = parse_sexp(lines[-2][3:].split("|")[-1])
+                    if not r1:
+                        problem = "no items"
+                    if lines[-1].startswith("ok "):
+                        stale2, r2 = parse_sexp(lines[-1][3:].split("|")[-1])
+                    else:
+                        stale2, r2 = 0, [None] * len(r1)
+                        problem = "reading everything again after the churn fails: " + lines[-1][:200]
+                    for (i, k, v, fc), v2 in zip(r1, r2):
+                        stats["evaluations"] += 1
+                        if v != 5000 + i or (v2 is not None and v2 != 5000 + i):
+                            problem = problem or "item %d (%s) reads %s, after the churn %s" % (i, p.kinds[k][0], v, v2)
+                    if stale1 or stale2:
+                        problem = (problem + "; " if problem else "") + "stale-handle accesses (slot marked free while a handle to it is used): %d at the first read, %d after the churn" % (stale1, stale2)
+                    if dfc >= 1 and p.acc is None:
+                        for (i, k, v, fc) in r1:
+                            if fc > fc0:
+                                key = "%s/%s/%s" % (p.which, "2nd" if p.second else "1st", p.kinds[k][0])
+                                trig[key] = trig.get(key, 0) + 1
+                                break
+                    if dfc < 1:
+                        stats["implicit_no_trigger"] = stats.get("implicit_no_trigger", 0) + 1
+                    else:
+                        stats["full_collections"] += dfc
+                except (IndexError, ValueError, TypeError) as ex:
+                    problem = "unexpected output (%r): %s" % (ex, lines[-2:])
+                stats["seen"].add(("implicit", p.label(), jit))
+                if problem:
+                    shape = IMPL_ACCUMULATORS[p.acc][2] if p.acc is not None else None
+                    kid = KNOWN_SHAPES.get(shape)
+                    if kid and kid in known:
+                        ctx.known_finding("id=%s %s" % (kid, known[kid]))
+                        stats["known_hits"][kid] = stats["known_hits"].get(kid, 0) + 1
+                    else:
+                        ctx.violation(name, head + ";; observed: %s\n%s\n" % (problem, p.text))
 
 
 def minimise_and_report(ctx, text, scens, mode, bad, stale, stats, label):
@@ -588,7 +812,7 @@ def run(ctx):
         for i in range(0, len(dl), per):
             t, s = gen_program(rng, min(per, len(dl) - i), ("every", 1), directed=dl[i:i + per])
             items.append((t, s, ("every", 1)))
-        nrand = 60 if ctx.quick() else 5000
+        nrand = 60 if ctx.quick() else 3000     # ~13 min on 16 cores with at most 60 programs per harness process
         for i in range(nrand):
             mode = modes[i % len(modes)]
             t, s = gen_program(rng, per, mode)
@@ -601,6 +825,20 @@ def run(ctx):
     check_programs(ctx, items, stats, "gen", timeout=240 if ctx.quick() else 3000)
     ctx.log("programs=%d scenarios=%d stale=%d full collections=%d" % (
         stats["programs"], stats["evaluations"], stats["stale"], stats["full_collections"]))
+    # 4. implicit collections: the collector's own thresholds, no forcing
+    if hook:
+        implicit_family(ctx, stats)
+        ctx.log("implicit-collection programs=%d, allocation kinds that were the triggering one: %d of %d, without a trigger: %d" % (
+            stats.get("implicit_programs", 0), len({k.rsplit("/", 1)[1] for k in stats.get("implicit_trigger_kinds", {})}),
+            len(IMPL_VALUE_KINDS) + len(IMPL_VECTOR_KINDS), stats.get("implicit_no_trigger", 0)))
+    own = "verif_" in "".join(l for l in out.splitlines() if l.startswith(" markSites"))
+    stats["hook_own_marker_call"] = own
+    if own:
+        ctx.notes.append("the forced-collection hook of this /repo starts the marker from its own call site "
+                         "(verif_forced_collection): forced runs do not exercise the root arguments of the real "
+                         "value_collection / vector_collection call sites; those are covered by the obligation "
+                         "pending_value_is_root and by the implicit-collection programs only "
+                         "(.build/C04/proposed-hook-forced-through-real-path.diff removes the duplication)")
 
     if not translator_ok and not ctx.violations:
         ctx.violation("C04-translator.txt", "translate/c04_edges.py no longer parses the sources:\n" + out, no_input=True)
@@ -614,18 +852,23 @@ def run(ctx):
     ctx.coverage.update({
         "trusted_base": C.TRUSTED_BASE + ["translate/c04_edges.py (bracket matching + regex extraction)",
                                           "hand-written edgesSpecTable / rootsSpec in Props.lean",
-                                          "hypothesis of the _partial theorems: values held by an open continuation mark are on the operand stack"],
+                                          "hand-written VM model of the stack discipline around call/cc (LemmasOpenMark.lean), on which open_mark_covered is proved"],
         "evaluations": stats["evaluations"], "distinct_nontrivial": len(stats["seen"]),
-        "rule": "scenario = (hiding place: global/local/pending argument/closure/closed+open continuation/handler/dynamic-wind/TLS/second thread/channel/parameter/accumulators of map, foldl, transduce, vector fill/apply/internal defines/live cycle) x (storage: box, mutable vector, mutable struct field, set!-captured variable) x (0-3 nested containers out of 17 kinds) x (collection at every 1st/2nd/7th allocation, or explicit full collections), each followed by enough garbage to hand out every free slot; distinct = distinct (shape, storage, wrappers, mode)",
+        "rule_implicit": "implicit program = (free list: values / vectors) x (threshold: first / second) x (rotation of 11 resp. 8 allocation kinds with a fresh unshared mutable operand, or one of 6 accumulating constructs) x (margin below the threshold) x (STEEL_JIT on / off); judged by the tags read back at once and after enough garbage to reuse every free slot, and by the stale-handle detector",
+        "rule": "scenario = (hiding place: global/local/pending argument/closure/closed+open continuation/handler/dynamic-wind/TLS/second thread/channel/parameter/accumulators of map, foldl, transduce, vector fill/apply/internal defines/live cycle) x (storage: box, mutable vector, make-vector vector, mutable struct field, set!-captured variable) x (0-3 nested containers out of 17 kinds) x (collection at every 1st/2nd/7th allocation, or explicit full collections), each followed by enough garbage to hand out every free slot; distinct = distinct (shape, storage, wrappers, mode)",
         "samples": stats["samples"], "programs": stats["programs"], "by_shape": stats["by_shape"],
         "full_collections_on_real_heaps": stats["full_collections"], "stale_handle_accesses": stats["stale"],
         "corpus_witnesses": stats.get("corpus", 0),
         "model_fields": stats.get("model_fields"), "model_fields_lost_by_tables": stats.get("model_lost"),
         "model_programs": stats.get("model_programs"), "model_reads": stats.get("model_reads"),
         "hook_present": hook, "known_finding_hits": stats["known_hits"],
+        "hook_has_own_marker_call": stats.get("hook_own_marker_call"),
+        "implicit_collection_programs": stats.get("implicit_programs", 0),
+        "implicit_trigger_kinds": stats.get("implicit_trigger_kinds", {}),
+        "implicit_programs_without_trigger": stats.get("implicit_no_trigger", 0),
         "translator_extracted": out.strip().splitlines()[:7], "axioms": pr.get("axioms", {}), "proof_failures": ["%s: %s" % f for f in pr["failed"]],
     })
-    ctx.assumptions = ["open continuation marks hold only values that are still on the operand stack (VM protocol, not modelled)",
+    ctx.assumptions = ["the VM follows the stack discipline modelled in LemmasOpenMark.lean (open_mark_covered is proved of that model)",
                        "edgesSpecTable lists every value-holding field"]
     return ctx.finish("proof")
 
